@@ -159,7 +159,7 @@ def gen_oks(rng):
     # case is shifted by a large dyadic offset, exactly representable in float32 (k/8 < 2^21)
     f32 = rng.random() < 0.3
     if rng.random() < 0.35 and R <= 400:
-        off = [F(rng.choice([512, 1000, 4096, 20000])) for _ in range(n_ed)]
+        off = [F(rng.choice([512, 1000, 4096, 20000, -512, -1000, -4096, -20000])) for _ in range(n_ed)]
         sh = lambda poses: [[[None if v is None else v + off[d] for d, v in enumerate(p)] for p in pose] for pose in poses]
         gts, prs = sh(gts), sh(prs)
     if f32:
@@ -176,7 +176,14 @@ def gen_area(rng):
     n_nodes = rng.randint(1, 5)
     R = rng.choice([2, 16, 400])
     ps = [gen_pose(rng, n_nodes, n_ed, R, rng.choice([0, 0.3, 0.6])) for _ in range(rng.randint(1, 4))]
+    if rng.random() < 0.5:                             # negative / image-sized coordinates (crop-relative, translated)
+        off = [F(rng.choice([-20000, -1000, -64, -3, 512, 4096])) for _ in range(n_ed)]
+        ps = shift_poses(ps, off)
     return {"kind": "area", "n_ed": n_ed, "n_nodes": n_nodes, "ps": ps, "two_d": len(ps) == 1 and rng.random() < 0.4}
+
+
+def shift_poses(poses, off):
+    return [[[None if v is None else v + off[d] for d, v in enumerate(p)] for p in pose] for pose in poses]
 
 
 def gen_match(rng):
@@ -199,6 +206,9 @@ def gen_match(rng):
         else:
             prs.append(gen_pose(rng, n_nodes, 2, R, p_nan, shape="free"))
     scores = [F(rng.randint(0, 8), 8) for _ in range(n_pr)]       # many ties
+    if rng.random() < 0.3:
+        off = [F(rng.choice([-20000, -1000, -64, 512, 4096])) for _ in range(2)]
+        gts, prs = shift_poses(gts, off), shift_poses(prs, off)
     thr = rng.choice([F(0), F(0), F(0), F(1, 4), F(1, 2), F(7, 8), F(1)])
     sd = rng.choice([None, None, F(1, 8), F(1, 2), F(1)])
     sc = rng.choice([None, None, F(10), F(100)])
@@ -218,6 +228,12 @@ def gen_cost(rng, hung):
         for _ in range(rng.randint(1, 2)):
             if n and m:
                 C[rng.randrange(n)][rng.randrange(m)] = None
+    if hung == "inf":                                  # infinite costs (None): a track without candidates etc.
+        for _ in range(rng.choice([1, 1, 2, 3, n * m])):
+            C[rng.randrange(n)][rng.randrange(m)] = None
+        if rng.random() < 0.2:
+            C[rng.randrange(n)] = [None] * m           # a whole row without finite cost
+        return {"kind": "hunginf", "C": C, "n": n, "m": m}
     return {"kind": "hung" if hung else "greedy", "C": C, "n": n, "m": m}
 
 
@@ -291,6 +307,8 @@ def term(c, flags):
     if k == "hung":
         C = c["C"] if c["n"] <= c["m"] else [list(r) for r in zip(*c["C"])]
         return f"CHung {core.clist(C, lambda r: core.clist(r, core.cq))}"
+    if k == "hunginf":
+        return f"CHungInf {cmatrix(c['C'])}"
     if k == "iou":
         return "CIou (%s, %s, %s, %s) (%s, %s, %s, %s)" % tuple(core.cq(v) for v in c["a"] + c["b"])
     if k == "cos":
@@ -614,8 +632,8 @@ def detect_flags(impl):
 # ---------------------------------------------------------------- the check
 def gen_cases(rng, thorough):
     n = 30000 if thorough else 1500
-    mix = [("oks", 0.36), ("match", 0.30), ("area", 0.06), ("greedy", 0.08), ("hung", 0.05), ("iou", 0.06),
-           ("cos", 0.05), ("euc", 0.04)]
+    mix = [("oks", 0.36), ("match", 0.30), ("area", 0.06), ("greedy", 0.08), ("hung", 0.05), ("hunginf", 0.04),
+           ("iou", 0.05), ("cos", 0.04), ("euc", 0.03)]
     cases = []
     for kind, w in mix:
         for _ in range(max(4, int(n * w))):
@@ -625,6 +643,8 @@ def gen_cases(rng, thorough):
                 cases.append(gen_match(rng))
             elif kind == "area":
                 cases.append(gen_area(rng))
+            elif kind == "hunginf":
+                cases.append(gen_cost(rng, "inf"))
             elif kind in ("greedy", "hung"):
                 cases.append(gen_cost(rng, kind == "hung"))
             elif kind == "iou":
@@ -713,6 +733,23 @@ def eval_case(c, m, impl, flags, rng):
         elif opt is None or tot != opt:
             bad = (f"hungarian_matching: total cost {tot} is not the optimum {opt}", None)
         return diff, bad, (rows, cols)
+    if k == "hunginf":
+        C = np.array([[np.inf if v is None else float(v) for v in r] for r in c["C"]], dtype=float)
+        C0 = C.copy()
+        rows, cols = impl.tu.hungarian_matching(C)
+        rows, cols = [int(x) for x in rows], [int(x) for x in cols]
+        cnt, opt = m[0], F(*m[1])
+        if not np.array_equal(C, C0):
+            bad = ("hungarian_matching modified its cost matrix", None)
+        elif len(set(rows)) != len(rows) or len(set(cols)) != len(cols) or len(rows) != len(cols):
+            bad = ("hungarian_matching: not one-to-one", None)
+        elif any(c["C"][r][cc] is None for r, cc in zip(rows, cols)):
+            bad = ("hungarian_matching: an infinite-cost pair is reported as a match", None)
+        elif len(rows) != cnt:
+            bad = (f"hungarian_matching: {len(rows)} finite pairs, the largest possible number is {cnt}", None)
+        elif sum((c["C"][r][cc] for r, cc in zip(rows, cols)), F(0)) != opt:
+            bad = (f"hungarian_matching: total cost is not the optimum {opt} among {cnt}-pair assignments", None)
+        return diff, bad, (rows, cols)
     if k == "iou":
         out = float(impl.tu.compute_iou(tuple(float(v) for v in c["a"]), tuple(float(v) for v in c["b"])))
         i, u = F(*m[0]), F(*m[1])
@@ -749,7 +786,7 @@ def nontrivial(c):
         return len(c["gts"]) >= 1 and len(c["prs"]) >= 1 and any(n_vis(g) for g in c["gts"])
     if k == "match":
         return len(c["gts"]) >= 1 and len(c["prs"]) >= 1
-    if k in ("greedy", "hung"):
+    if k in ("greedy", "hung", "hunginf"):
         return c["n"] >= 2 and c["m"] >= 2
     return True
 
